@@ -1,6 +1,7 @@
 (* C20 — property theorems (statements only; proofs live in Proofs*.v). *)
 From Coq Require Import ZArith QArith Qround Qabs Bool List Sorted Permutation.
-Require Import QV.C20.Model QV.C20.Spec QV.C20.ProofsNum QV.C20.ProofsWin QV.C20.ProofsShrink.
+Require Import QV.common.Ctl QV.C20.Model QV.C20.Spec QV.C20.ProofsNum QV.C20.ProofsWin QV.C20.ProofsShrink.
+Require Import QV.C20.ForLoop QV.C20.Gen_performance QV.C20.GenEq.
 Import ListNotations.
 Open Scope Q_scope.
 
@@ -90,3 +91,14 @@ Print Assumptions C20_shrink_pairwise_disjoint.
 Theorem C20_shrink_variants_equal : forall ws, shrink_numpy ws = shrink_loop ws.
 Proof. exact shrink_variants. Qed.
 Print Assumptions C20_shrink_variants_equal.
+
+(* ---- the loop kernels re-translated from /repo on every run compute the clean models ---- *)
+Theorem C20_translated_shrink_is_model : forall bs ls, length bs = length ls ->
+  shrink_out (gen_shrink_overlapping_windows_numba bs ls) = shrink_loop (combine bs ls).
+Proof. exact gen_shrink_eq. Qed.
+Print Assumptions C20_translated_shrink_is_model.
+
+Theorem C20_translated_is_monotonic_is_model : forall xs,
+  gen_is_monotonic_numba xs = Ret (mono_loop (map inject_Z xs), xs).
+Proof. exact gen_is_monotonic_eq. Qed.
+Print Assumptions C20_translated_is_monotonic_is_model.
